@@ -7,3 +7,6 @@ import Spade.Properties.C04
 #print axioms Spade.C04_remove_exact
 #print axioms Spade.C04_remove_piece
 #print axioms Spade.C04_remove_piece_result
+#print axioms Spade.C04_model_insert_keeps_flags
+#print axioms Spade.C04_model_insert_on_edge_flags
+#print axioms Spade.C04_model_insert_off_edge_flags
